@@ -24,9 +24,12 @@ def hexBytes (s : String) : CookieKey :=
     | _ => []
   go s.toList
 
+/-- the monitor's configuration is what the APPLICATION configured: the keys handed to `NewCookieHandler`, the constructor's client
+    id / redirect URI / scopes, and "PKCE enabled" = `WithPKCE` is in the option list handed to the constructor (`ropts`; lines of
+    older replays without it: `pkce`) - never what the relying-party object reports -/
 def parseCfg (l : Line) : C17.Cfg :=
   { hashKey := hexBytes (str l "hk"), blockKey := hexBytes (str l "bk"), clientID := str l "cid", redirectURI := str l "ruri",
-    scopes := list l "sc", pkce := bool l "pkce" }
+    scopes := list l "sc", pkce := if has l "ropts" then (list l "ropts").contains "pkce" else bool l "pkce" }
 
 def nth (xs : List String) (i : Nat) : String := xs.getD i ""
 
